@@ -15,6 +15,7 @@ import logging
 import numpy as np
 
 INF = 999999999
+RUN_LIMIT = 40         # seconds per recorded execution
 
 
 def linf(X, y):
@@ -142,6 +143,8 @@ def record(run):
     oldlevel = klog.level
 
     def w_iter(traj, distance_method, distances, assignments, center_inds, **kw):
+        if len(events) > 50 * n + 200:
+            raise RuntimeError("k-centers is still iterating after %d recorded steps on %d frames" % (len(events), n))
         if first["kc"]:
             first["kc"] = False
             events.append(dict(state(center_inds, assignments, distances), ev="start"))
@@ -151,6 +154,8 @@ def record(run):
         return out
 
     def w_pam(Xa, met, medoid_inds, assignments, distances, **kw):
+        if len(events) > 50 * n + 2000:
+            raise RuntimeError("k-medoids is still sweeping after %d recorded steps on %d frames" % (len(events), n))
         if first["pam"] and run["algo"] == "kmedoids":
             events.append(dict(state(medoid_inds, assignments, distances), ev="pamstart"))
         if first["pam"] and run["algo"] == "hybrid":     # hand-over state = what k-centers returned
@@ -261,6 +266,17 @@ def record(run):
     klog.addHandler(handler)
     klog.setLevel(logging.DEBUG)
     res = None
+    # a run of these tiny inputs takes milliseconds; one that does not come back (a loop whose guard can no longer
+    # fail) is an observation, not a reason for the harness to wait for ever
+    import signal
+
+    class RunTimeout(Exception):
+        pass
+
+    def _alarm(*a):
+        raise RunTimeout("no result after %d s" % RUN_LIMIT)
+    old_handler = signal.signal(signal.SIGALRM, _alarm)
+    signal.alarm(RUN_LIMIT)
     try:
         try:
             res = call()
@@ -269,6 +285,8 @@ def record(run):
         except Exception as ex:
             events.append({"ev": "raise", "msg": "%s: %s" % (type(ex).__name__, str(ex)[:200])})
     finally:
+        signal.alarm(0)
+        signal.signal(signal.SIGALRM, old_handler)
         kc_mod._kcenters_iteration = orig_iter
         km_mod._kmedoids_pam_update = orig_pam
         klog.removeHandler(handler)
